@@ -92,20 +92,35 @@ def _rec(cls, resid):
 def _cbtn(j):
     from toqito.channel_metrics import completely_bounded_trace_norm
 
-    v = completely_bounded_trace_norm(np.array(j, dtype=complex))
+    a = np.array(j, dtype=complex)
+    v = completely_bounded_trace_norm(a)
+    _unchanged("completely_bounded_trace_norm", (a, j))
     return _scalar(v, "completely_bounded_trace_norm")
 
 
 def _dd(j1, j2):
     from toqito.channel_metrics import diamond_distance
 
-    return _scalar(diamond_distance(np.array(j1, dtype=complex), np.array(j2, dtype=complex)), "diamond_distance")
+    a1, a2 = np.array(j1, dtype=complex), np.array(j2, dtype=complex)
+    v = diamond_distance(a1, a2)
+    _unchanged("diamond_distance", (a1, j1), (a2, j2))
+    return _scalar(v, "diamond_distance")
 
 
 def _cbsn(j):
     from toqito.channel_metrics import completely_bounded_spectral_norm
 
-    return _scalar(completely_bounded_spectral_norm(np.array(j, dtype=complex)), "completely_bounded_spectral_norm")
+    a = np.array(j, dtype=complex)
+    v = completely_bounded_spectral_norm(a)
+    _unchanged("completely_bounded_spectral_norm", (a, j))
+    return _scalar(v, "completely_bounded_spectral_norm")
+
+
+def _unchanged(what, *pairs):
+    """the arrays handed to toqito must come back unmodified (added after seeded change C20-s2 was missed: an in-place
+    `choi_1 -= choi_2` is invisible when every call receives a fresh copy and nobody looks at it afterwards)"""
+    for passed, original in pairs:
+        req(np.array_equal(passed, np.asarray(original, dtype=complex)), f"{what} modified an array owned by the caller", "args-mutated:" + what)
 
 
 def _scalar(v, what):
@@ -126,7 +141,9 @@ def _cf(j1, j2):
     with warnings.catch_warnings(record=True) as rec:
         warnings.simplefilter("always")
         try:
-            v = channel_fidelity(np.array(j1, dtype=complex), np.array(j2, dtype=complex))
+            a1, a2 = np.array(j1, dtype=complex), np.array(j2, dtype=complex)
+            v = channel_fidelity(a1, a2)
+            _unchanged("channel_fidelity", (a1, j1), (a2, j2))
         except ValueError as e:
             if "InvalidDim" not in str(e):
                 raise
